@@ -160,6 +160,13 @@ pub trait Property: Sync {
     fn known_signature(&self, _input: &Self::Input) -> Option<&'static str> {
         None
     }
+    /// libFuzzer campaign of the thorough tier: (cargo-fuzz target, decoder of a raw fuzz input into a case)
+    fn fuzz_target(&self) -> Option<&'static str> {
+        None
+    }
+    fn from_fuzz_bytes(&self, _data: &[u8]) -> Option<Self::Input> {
+        None
+    }
     /// extra whole-run procedures (not per-case): returns Err(message, replay json) on violation
     fn extra(&self, _tier: Tier, _seed: u64, _obs: &mut Obs) -> Result<(), (String, Value)> {
         Ok(())
@@ -365,8 +372,13 @@ pub fn run<P: Property>(p: &P, opts: &Opts) -> i32 {
 
     // 3. whole-run procedures --------------------------------------------------------------------
     if failures.is_empty() {
-        if let Err((m, v)) = p.extra(opts.tier, opts.seed, &mut total) {
-            failures.push(Failure { input: v, message: m, origin: "procedure" });
+        match std::panic::catch_unwind(std::panic::AssertUnwindSafe(|| p.extra(opts.tier, opts.seed, &mut total))) {
+            Ok(Ok(())) => {}
+            Ok(Err((m, v))) => failures.push(Failure { input: v, message: m, origin: "procedure" }),
+            Err(_) => {
+                let m = PANIC_MSG.with(|m| m.borrow_mut().take()).unwrap_or_default();
+                infra(&format!("a whole-run procedure of {} panicked (harness problem, not a verdict): {}", id, m));
+            }
         }
     }
 
@@ -489,6 +501,33 @@ pub fn run<P: Property>(p: &P, opts: &Opts) -> i32 {
         }
     }
 
+    // 6. libFuzzer campaign (thorough tier only; coverage-guided, oracle inside the target) -------------
+    let mut engines: Vec<String> = vec!["proptest-1.11 TestRunner (sharded, fixed seed)".into(), "enumeration".into()];
+    let mut fuzz_execs = 0u64;
+    if opts.tier == Tier::Thorough && failures.is_empty() {
+        if let Some(target) = p.fuzz_target() {
+            match libfuzzer_campaign(p, target, opts) {
+                FuzzOutcome::Unavailable(why) => engines.push(format!("libFuzzer {}: not run ({})", target, why)),
+                FuzzOutcome::Clean(n) => {
+                    fuzz_execs = n;
+                    total.evaluations += n;
+                    engines.push(format!("libFuzzer target {} (oracle of {} in-target): {} executions, no crash", target, id, n));
+                }
+                FuzzOutcome::Crash { execs, input, message, reproduced } => {
+                    fuzz_execs = execs;
+                    total.evaluations += execs;
+                    if reproduced {
+                        engines.push(format!("libFuzzer target {}: crash after {} executions, reproduced through the oracle", target, execs));
+                        failures.push(Failure { input, message, origin: "libfuzzer" });
+                    } else {
+                        engines.push(format!("libFuzzer target {}: a crash after {} executions did NOT reproduce through the oracle outside the fuzz build (kept as inconclusive): {}", target, execs, message));
+                        println!("INCONCLUSIVE-NOTE: libFuzzer crash not reproduced: {}", message);
+                    }
+                }
+            }
+        }
+    }
+
     // report ---------------------------------------------------------------------------------------
     failures.sort_by_key(|f| (serde_json::to_string(&f.input).unwrap().len(), serde_json::to_string(&f.input).unwrap()));
     let mut exit = 0;
@@ -527,7 +566,8 @@ pub fn run<P: Property>(p: &P, opts: &Opts) -> i32 {
             "excluded_by_construction": total.excluded,
             "exhaustive_subdomains": p.exhaustive_subdomains(opts.tier),
             "exhaustive": false,
-            "engines_run": ["proptest-1.11 TestRunner (sharded, fixed seed)", "enumeration"],
+            "engines_run": engines,
+            "libfuzzer_executions": fuzz_execs,
             "known_findings_seen": known_seen,
             "shards": nshards,
             "violation_replay": replay_path.as_ref().map(|p| p.display().to_string()),
@@ -566,4 +606,107 @@ pub fn shard_range(n: u64, shard: usize, nshards: usize) -> impl Iterator<Item =
 
 pub fn boxed<S: Strategy + 'static>(s: S) -> BoxedStrategy<S::Value> {
     s.boxed()
+}
+
+pub enum FuzzOutcome {
+    Unavailable(String),
+    Clean(u64),
+    Crash { execs: u64, input: Value, message: String, reproduced: bool },
+}
+
+/// Fixed-work libFuzzer campaign: 8 jobs x (runs/8) executions, seed-pinned (approximately reproducible;
+/// the saved failing input, re-decoded and re-checked here, is the reproducible unit).
+fn libfuzzer_campaign<P: Property>(p: &P, target: &str, opts: &Opts) -> FuzzOutcome {
+    use std::process::Command;
+    let harness = verif_dir().join("harness");
+    let fuzzdir = harness.join("fuzz");
+    if !fuzzdir.join("Cargo.toml").exists() {
+        return FuzzOutcome::Unavailable("no fuzz crate".into());
+    }
+    let build = Command::new("cargo").args(["+nightly", "fuzz", "build", target]).current_dir(&harness).env("CARGO_NET_OFFLINE", "true").output();
+    match build {
+        Ok(o) if o.status.success() => {}
+        Ok(o) => return FuzzOutcome::Unavailable(format!("cargo +nightly fuzz build failed: {}", String::from_utf8_lossy(&o.stderr).lines().rev().take(3).collect::<Vec<_>>().join(" | "))),
+        Err(e) => return FuzzOutcome::Unavailable(format!("cannot run cargo fuzz: {}", e)),
+    }
+    let tag = format!("{}-{}-{}", target, p.id(), opts.seed);
+    let work = fuzzdir.join("work").join(&tag);
+    let _ = std::fs::remove_dir_all(&work);
+    let corpus = work.join("corpus");
+    let arts = work.join("artifacts");
+    std::fs::create_dir_all(&corpus).ok();
+    std::fs::create_dir_all(&arts).ok();
+    // deterministic seed corpus: 64 byte strings derived from the seed (full-length inputs from the start)
+    for i in 0..64u64 {
+        let mut bytes = vec![];
+        for k in 0..24u64 {
+            bytes.extend_from_slice(&hash_of(&(opts.seed, p.id(), i, k)).to_le_bytes());
+        }
+        bytes.truncate(24 + (i as usize * 3) % 160);
+        std::fs::write(corpus.join(format!("seed-{:02}", i)), bytes).ok();
+    }
+    let jobs = opts.threads.clamp(1, 8);
+    let total_runs = ((2_000_000f64) * opts.scale) as u64;
+    let runs = total_runs / jobs as u64;
+    let bin = fuzzdir.join("target/x86_64-unknown-linux-gnu/release").join(target);
+    if !bin.exists() {
+        return FuzzOutcome::Unavailable(format!("fuzz binary {} not found after build", bin.display()));
+    }
+    let out = Command::new(&bin)
+        .arg(&corpus)
+        .args([
+            format!("-runs={}", runs),
+            format!("-seed={}", (opts.seed % 4_000_000_000).max(1)),
+            "-max_len=256".into(),
+            "-len_control=0".into(),
+            format!("-jobs={}", jobs),
+            format!("-workers={}", jobs),
+            format!("-artifact_prefix={}/", arts.display()),
+            "-print_final_stats=1".into(),
+            "-max_total_time=2400".into(),
+            "-rss_limit_mb=4096".into(),
+        ])
+        .current_dir(&work)
+        .env("T2N_FUZZ_PROP", p.id())
+        .env("RUST_BACKTRACE", "0")
+        .output();
+    let out = match out {
+        Ok(o) => o,
+        Err(e) => return FuzzOutcome::Unavailable(format!("cannot start the fuzz binary: {}", e)),
+    };
+    // per-job logs fuzz-<k>.log in the work dir
+    let mut execs = 0u64;
+    let mut violation_line = String::new();
+    for k in 0..jobs {
+        if let Ok(log) = std::fs::read_to_string(work.join(format!("fuzz-{}.log", k))) {
+            for line in log.lines() {
+                if let Some(v) = line.strip_prefix("stat::number_of_executed_units:") {
+                    execs += v.trim().parse::<u64>().unwrap_or(0);
+                }
+                if line.contains("T2N-VIOLATION") && violation_line.is_empty() {
+                    violation_line = line.chars().take(600).collect();
+                }
+            }
+        }
+    }
+    let _ = out;
+    let mut crashes: Vec<PathBuf> = std::fs::read_dir(&arts).map(|d| d.filter_map(|e| e.ok().map(|e| e.path())).collect()).unwrap_or_default();
+    crashes.sort();
+    if crashes.is_empty() {
+        let _ = std::fs::remove_dir_all(&work);
+        return FuzzOutcome::Clean(execs);
+    }
+    // smallest artefact first; re-decode and re-check outside the fuzz build
+    crashes.sort_by_key(|c| std::fs::metadata(c).map(|m| m.len()).unwrap_or(u64::MAX));
+    for c in &crashes {
+        if let Ok(bytes) = std::fs::read(c) {
+            if let Some(input) = p.from_fuzz_bytes(&bytes) {
+                let mut scratch = Obs::new();
+                if let Err(m) = checked(p, &input, &mut scratch) {
+                    return FuzzOutcome::Crash { execs, input: serde_json::to_value(&input).unwrap(), message: format!("{} (libFuzzer artefact {})", m, c.display()), reproduced: true };
+                }
+            }
+        }
+    }
+    FuzzOutcome::Crash { execs, input: Value::Null, message: format!("{} artefact(s) in {}; first message: {}", crashes.len(), arts.display(), violation_line), reproduced: false }
 }
